@@ -89,3 +89,14 @@ pub fn outcome_line(o: &Outcome) -> String {
         None => format!("OK {} | {}", esc(&o.value), esc(&o.console.join("\u{1}"))),
     }
 }
+
+/// `prog` model: one program per line (newlines as the two characters backslash-n).
+/// output: `OK <value> | <console>` or `ERR <class> <message> | <console>`
+pub fn line(l: &str) -> String {
+    let src = l.replace("\\n", "\n");
+    let o = run_fresh(&src);
+    match &o.error {
+        Some(c) => format!("ERR {} {} | {}", c, esc(&o.message), esc(&o.console.join("\u{1}"))),
+        None => format!("OK {} | {}", esc(&o.value), esc(&o.console.join("\u{1}"))),
+    }
+}
